@@ -353,6 +353,25 @@ def check_decisions(ctx: Ctx) -> None:
                             seen["F"] = True
                             ctx.ob("R-DECISION", f"{m.qual} :: bullet marker", ok,
                                    f"a bullet item's marker must be the list's own bullet character; it depends on {sorted(attrs)}", where(m, d.node))
+            # the continuation indent must be as wide as the marker of *this* item: in the ordered arm it has to follow the
+            # same item number (start + index) as the marker, not be computed once for the whole list
+            if len(call.args) >= 2 and isinstance(call.args[1], ast.Name):
+                svar = call.args[1].id
+                sdefs = flow.reaching(w, svar)
+                for d in sdefs:
+                    guards = direct_guards(prog, m, d.node)
+                    for b, lab, org in guards:
+                        if any(o[0] == "attr" and o[2] == "ordered" for o in org) and lab == "T" and d.value is not None:
+                            sl = prog.slice(m, d.value, d.node)
+                            ok = f"{el}.start" in sl.attrs() and any(x.kind == "for" for x in sl.nodes)
+                            ctx.ob("R-DECISION", f"{m.qual} :: ordered continuation indent follows the item number", ok,
+                                   "the indent of an ordered item's continuation lines must be computed from the same number as its marker "
+                                   "(start + index): `9.` and `10.` need different indents, else the children of item 10 fall out of the item",
+                                   where(m, d.node))
+                in_loop = any(w in flow.loop_body_nodes(h) for h in flow.cfg.nodes if h.kind == "for")
+                defs_in_loop = all(any(d.node in flow.loop_body_nodes(h) for h in flow.cfg.nodes if h.kind == "for") for d in sdefs) and bool(sdefs)
+                ctx.ob("R-DECISION", f"{m.qual} :: prefixes are computed per item", in_loop and defs_in_loop,
+                       "marker and continuation indent must be (re)computed inside the item loop", where(m, w))
             ctx.ob("R-DECISION", f"{m.qual} :: marker chosen by `ordered`", seen["T"] and seen["F"],
                    "the marker kind must be selected by element.ordered with one arm each", where(m, w))
 
